@@ -1,6 +1,199 @@
 import Srsim.Spec.Proto
-/-! placeholder, replaced by the full theorem file once its proofs are in -/
-namespace Proto
-theorem C09_monitor_rejects_after_termination :
-    step (α := Rat) { stage := 13 } (.phase1End) = none := by decide
-end Proto
+import Srsim.Proofs.NumRat
+import Srsim.Proofs.SimFrame
+/-!
+# C09 — runs stop exactly at an exit condition and the result adds up
+-/
+namespace Sim
+variable {α : Type} [Num α]
+
+/-- **Exit condition and precedence**: loss when no character is left, otherwise win when no enemy
+is left, otherwise timeout when the whole cycles elapsed reach the limit, otherwise none. -/
+theorem C09_exit_reason (cfg : Cfg) (s : S α) :
+    (s.chars = [] → exitReason cfg s = some 1) ∧
+    (s.chars ≠ [] → s.enemies = [] → exitReason cfg s = some 2) ∧
+    (s.chars ≠ [] → s.enemies ≠ [] → Num.trunc (s.turn.totalAV / 100) ≥ cfg.cycles → exitReason cfg s = some 3) ∧
+    (s.chars ≠ [] → s.enemies ≠ [] → Num.trunc (s.turn.totalAV / 100) < cfg.cycles → exitReason cfg s = none) := by
+  unfold exitReason
+  refine ⟨fun h => ?_, fun h1 h2 => ?_, fun h1 h2 h3 => ?_, fun h1 h2 h3 => ?_⟩
+  · simp [h]
+  · have : s.chars.isEmpty = false := by simpa using h1
+    simp [this, h2]
+  · have e1 : s.chars.isEmpty = false := by simpa using h1
+    have e2 : s.enemies.isEmpty = false := by simpa using h2
+    simp only [e1, e2, Bool.false_eq_true, ite_false]
+    rw [if_pos h3]
+  · have e1 : s.chars.isEmpty = false := by simpa using h1
+    have e2 : s.enemies.isEmpty = false := by simpa using h2
+    simp only [e1, e2, Bool.false_eq_true, ite_false]
+    rw [if_neg (Int.not_le.mpr h3)]
+
+/-- **An exit check stops the run iff a condition holds**, and then reports it with the clock. -/
+theorem C09_exit_check (cfg : Cfg) (s : S α) (hs : s.terminated = false) :
+    (exitReason cfg s = none → exitCheck cfg s = s) ∧
+    (∀ r, exitReason cfg s = some r →
+      (exitCheck cfg s).terminated = true ∧ (exitCheck cfg s).evs = .termination r s.turn.totalAV :: s.evs) := by
+  unfold exitCheck
+  refine ⟨fun h => ?_, fun r h => ?_⟩
+  · rw [h]
+  · rw [h]; exact ⟨rfl, rfl⟩
+
+/-- **The queue never runs a task once the battle is decided.** -/
+theorem C09_queue_stops (cfg : Cfg) (f : Nat) (s : S α) (t : Task) (q : List Task)
+    (hp : popMin s.queue = some (t, q)) (r : Nat) (hx : exitReason cfg s = some r) :
+    queueLoop cfg (f + 1) s = exitCheck cfg s := by
+  rw [queueLoop]
+  simp only [hp, hx, Option.isSome_some, ite_true]
+
+/-- sums of the hit totals in a stream (oldest first), by defender side -/
+def sumDealt (cfg : Cfg) : List (Ev α) → α
+  | [] => 0
+  | .hitEnd _ d total _ :: es => if isValidId cfg d && !isCharId cfg d then sumDealt cfg es + total else sumDealt cfg es
+  | _ :: es => sumDealt cfg es
+
+def sumTaken (cfg : Cfg) : List (Ev α) → α
+  | [] => 0
+  | .hitEnd _ d total _ :: es => if isCharId cfg d then sumTaken cfg es + total else sumTaken cfg es
+  | _ :: es => sumTaken cfg es
+
+theorem sumDealt_cons_notHE (cfg : Cfg) (e : Ev α) (es : List (Ev α)) (h : isHE e = false) :
+    sumDealt cfg (e :: es) = sumDealt cfg es := by
+  cases e <;> first | rfl | (simp [isHE] at h)
+
+theorem sumTaken_cons_notHE (cfg : Cfg) (e : Ev α) (es : List (Ev α)) (h : isHE e = false) :
+    sumTaken cfg (e :: es) = sumTaken cfg es := by
+  cases e <;> first | rfl | (simp [isHE] at h)
+
+theorem isCharId_valid (cfg : Cfg) (d : Int) (h : isCharId cfg d = true) : isValidId cfg d = true := by
+  unfold isCharId at h
+  unfold isValidId
+  simp only [Bool.and_eq_true, decide_eq_true_eq] at h ⊢
+  omega
+
+/-- the totals are the sums over the stream -/
+def Inv (cfg : Cfg) (s : S α) : Prop := s.dealt = sumDealt cfg s.evs ∧ s.taken = sumTaken cfg s.evs
+
+theorem collect_totals (cfg : Cfg) (s : S α) (d : Int) (x : α) :
+    (collect cfg s d x).dealt = (if isValidId cfg d && !isCharId cfg d then s.dealt + x else s.dealt) ∧
+    (collect cfg s d x).taken = (if isCharId cfg d then s.taken + x else s.taken) ∧
+    (collect cfg s d x).evs = s.evs := by
+  unfold collect
+  dsimp only
+  split
+  · exact ⟨rfl, rfl, rfl⟩
+  · next hv =>
+    have hc : isCharId cfg d = false := by
+      cases hh : isCharId cfg d
+      · rfl
+      · exact absurd (isCharId_valid cfg d hh) hv
+    have hv' : isValidId cfg d = false := by simpa using hv
+    simp [hc, hv']
+
+theorem invGood (cfg : Cfg) : GoodU cfg (fun s s' : S α => Inv cfg s → Inv cfg s') where
+  trans := fun h1 h2 h => h2 (h1 h)
+  silent := by
+    intro s s' h1 h2 h3 h
+    unfold Inv at h ⊢
+    rw [h1, h2, h3]; exact h
+  emit := by
+    intro s e he h
+    unfold Inv at h ⊢
+    show s.dealt = sumDealt cfg (e :: s.evs) ∧ s.taken = sumTaken cfg (e :: s.evs)
+    rw [sumDealt_cons_notHE cfg e _ he, sumTaken_cons_notHE cfg e _ he]; exact h
+  hitEnd := by
+    intro s a d x y h
+    unfold Inv at h ⊢
+    obtain ⟨c1, c2, c3⟩ := collect_totals cfg s d x
+    show (collect cfg s d x).dealt = sumDealt cfg (.hitEnd a d x y :: (collect cfg s d x).evs) ∧
+      (collect cfg s d x).taken = sumTaken cfg (.hitEnd a d x y :: (collect cfg s d x).evs)
+    rw [c1, c2, c3, h.1, h.2]
+    exact ⟨rfl, rfl⟩
+
+/-- **One hit**: the totals grow by exactly the hit's total on the defender's side, and the
+hit reports that total. (`evs` is newest first, which is the order `sumDealt` folds.) -/
+theorem C09_hit_totals (cfg : Cfg) (s : S α) (src tgt : Int)
+    (hd : s.dealt = sumDealt cfg s.evs) (ht : s.taken = sumTaken cfg s.evs) :
+    (hit cfg s src tgt).dealt = sumDealt cfg (hit cfg s src tgt).evs ∧
+    (hit cfg s src tgt).taken = sumTaken cfg (hit cfg s src tgt).evs := by
+  exact (invGood cfg).toGood.hit s src tgt ⟨hd, ht⟩
+
+/-- **Totals of a whole run**: the returned totals are the sums of the totals of all hits taken by
+enemies and by characters respectively. -/
+theorem C09_totals (cfg : Cfg) (fuel qfuel : Nat) (s0 : S α) (he : s0.evs = [])
+    (hd : s0.dealt = 0) (ht : s0.taken = 0) :
+    (run cfg fuel qfuel s0).dealt = sumDealt cfg (run cfg fuel qfuel s0).evs ∧
+    (run cfg fuel qfuel s0).taken = sumTaken cfg (run cfg fuel qfuel s0).evs := by
+  refine (invGood cfg).run fuel qfuel s0 ⟨?_, ?_⟩
+  · rw [hd, he]; rfl
+  · rw [ht, he]; rfl
+
+theorem nonDecreasing_iff (l : List Rat) : Proto.nonDecreasing l = true ↔ l.Pairwise (· ≤ ·) := by
+  match l with
+  | [] => simp [Proto.nonDecreasing]
+  | [a] => simp [Proto.nonDecreasing]
+  | a :: b :: rest =>
+    have ih := nonDecreasing_iff (b :: rest)
+    unfold Proto.nonDecreasing
+    rw [Bool.and_eq_true, ih, List.pairwise_cons (a := a)]
+    have hlt : ((!decide (@LT.lt Rat Num.toLT b a)) = true) ↔ a ≤ b := by
+      rw [Bool.not_eq_true', decide_eq_false_iff_not]
+      exact not_lt
+    rw [hlt]
+    constructor
+    · rintro ⟨hab, hp⟩
+      refine ⟨?_, hp⟩
+      intro y hy
+      rcases List.mem_cons.1 hy with rfl | hy
+      · exact hab
+      · exact le_trans hab ((List.pairwise_cons.1 hp).1 y hy)
+    · rintro ⟨hall, hp⟩
+      exact ⟨hall b (by simp), hp⟩
+
+theorem extendTo_concat (init : List Rat) (x : Rat) (cyc : Nat) (h : init.length ≤ cyc) :
+    extendTo (init ++ [x]) cyc = (init ++ List.replicate (cyc - init.length) x) ++ [x] := by
+  unfold extendTo
+  rw [List.getLastD_concat]
+  simp only [List.length_append, List.length_singleton]
+  split
+  · have : cyc + 1 - (init.length + 1) = cyc - init.length := by omega
+    rw [this, List.append_assoc, List.append_assoc]
+    congr 1
+    rw [← List.replicate_succ', List.replicate_succ]
+    rfl
+  · have : cyc - init.length = 0 := by omega
+    rw [this]; simp
+
+/-- **Series**: recording a hit keeps the cumulative series non-decreasing and ending at the new
+total, provided the cycle of the hit is not before the last recorded one (the clock never runs
+backwards, C02) and hit totals are non-negative. Stated over `ℚ`. -/
+theorem C09_series (l : List Rat) (total' : Rat) (cyc : Nat)
+    (hmono : Proto.nonDecreasing l = true) (hne : l ≠ [])
+    (hlast : ∀ x ∈ l.getLast?, x ≤ total') (hcyc : l.length ≤ cyc + 1) :
+    Proto.nonDecreasing ((extendTo l cyc).set cyc total') = true ∧
+    ((extendTo l cyc).set cyc total').getLast? = some total' := by
+  rw [nonDecreasing_iff] at hmono ⊢
+  obtain ⟨init, x, rfl⟩ : ∃ init x, l = init ++ [x] :=
+    ⟨l.dropLast, l.getLast hne, (List.dropLast_concat_getLast hne).symm⟩
+  have hx : x ≤ total' := hlast x (by simp)
+  have hlen : init.length ≤ cyc := by simp at hcyc; omega
+  rw [List.pairwise_append] at hmono
+  obtain ⟨hinit, _, hix⟩ := hmono
+  have hix' : ∀ a ∈ init, a ≤ x := fun a ha => hix a ha x (by simp)
+  rw [extendTo_concat init x cyc hlen]
+  have hP : (init ++ List.replicate (cyc - init.length) x).length = cyc := by
+    simp; omega
+  rw [List.set_append_right _ _ (by rw [hP]), hP]
+  simp only [Nat.sub_self, List.set_cons_zero, List.getLast?_concat, and_true]
+  rw [List.pairwise_append, List.pairwise_append]
+  refine ⟨⟨hinit, ?_, ?_⟩, by simp, ?_⟩
+  · rw [List.pairwise_replicate]; right; exact le_refl x
+  · intro a ha b hb
+    rw [List.eq_of_mem_replicate hb]
+    exact hix' a ha
+  · intro a ha b hb
+    rw [List.mem_singleton.1 hb]
+    rcases List.mem_append.1 ha with h | h
+    · exact le_trans (hix' a h) hx
+    · rw [List.eq_of_mem_replicate h]; exact hx
+
+end Sim
